@@ -146,3 +146,12 @@ Section SubDerive.
     in_family (SubstratePath.derive_path_str blake hard_derive soft_derive soft_derive_pub k s) = true.
   Proof. unfold SubstratePath.derive_path_str. fam; [apply sub_parse_family|apply sub_derive_path_family]. Qed.
 End SubDerive.
+
+(* ------------------------------------------------------------------ Model/Coins.v: the strict ASCII sub-grammar of
+   Bip32PathParser.Parse used for the coin tables' default paths (every rejection is Bip32PathError).  This model is
+   NOT the library's parser on arbitrary strings (that is Bip32Path.parse above), so it is not part of the fuzz map. *)
+From BU Require Model.Coins.
+Lemma coins_parse_elem_family e : in_family (Coins.parse_elem e) = true.
+Proof. unfold Coins.parse_elem, Coins.path_err. fam. Qed.
+Lemma coins_parse_path_family s : in_family (Coins.parse_path s) = true.
+Proof. unfold Coins.parse_path. fam; apply coins_parse_elem_family. Qed.
